@@ -894,6 +894,12 @@ impl<'info> Evaluator {
                 prog_args,
             ))))
         } else if call.name == "com".as_bytes() {
+            if arguments_to_convert.is_empty() {
+                return Err(CompileErr(
+                    call.loc.clone(),
+                    "com takes the form to compile as its argument".to_string(),
+                ));
+            }
             let mut end_of_list = Rc::new(SExp::Cons(
                 call.loc.clone(),
                 arguments_to_convert[0].to_sexp(),
